@@ -201,10 +201,11 @@ void Search::go()
     VERIF_POINT(1)
     _start_time = std::chrono::steady_clock::now();
 
-    // check if there is only one move to make
+    // check if there is only one move to make: do not think longer than
+    // half a second, but never longer than the limits allow either
     if (_root_moves.size() == 1)
     {
-        _search_time = 500;
+        _search_time = std::min<Duration>(_search_time, 500);
     }
     VERIF_POINT(2)
     iter_search();
